@@ -39,6 +39,30 @@ def rcb_double(X, Y, Z, b3='21'):
     return X3, Y3, Z3
 
 
+def fold_boundary_scalings():
+    """projective scalings whose Montgomery form w makes c*w land just below / at a multiple of 2^256 for the small
+    constants of the formulas (3, 3b = 21, 9b = 63, 24b = 168): the inputs on which a hand-rolled multiply-by-constant
+    or its 2^256-fold can lose a carry"""
+    Ri = pow(R, -1, P)
+    out = []
+    for cst in (21, 3, 63, 168):
+        for h in list(range(1, min(cst, 8))) + [cst - 1]:
+            for d in (0, 1):
+                w = ((h + 1) * 2**256 - 1) // cst + d
+                if w >= P:
+                    continue
+                lam = w * Ri % P
+                out.append(lam)
+                if pow(lam, (P - 1) // 2, P) == 1:      # a Z whose square has that Montgomery form
+                    out.append(pow(lam, (P + 1) // 4, P))
+    cases = []
+    for lam in out[:40]:
+        cases.append({'kind': 'el-scaled', 'a': '%064x' % lam, 'b': '%064x' % 1})
+        cases.append({'kind': 'el-scaled', 'a': '%064x' % 1, 'b': '%064x' % lam})
+    return cases
+
+
+
 def coords(low, o, name):
     return [val_term(low, o['%s.%s' % (name, c)]['f']) for c in 'xyz']
 
@@ -64,7 +88,7 @@ def run(tier, seed, ck=None):
     C12.run(tier, seed, ck, which=['Add', 'Subtract', 'Multiply', 'Negate', 'Square', 'Set', 'IsZero', 'One'])   # contracts of the field.Element methods used as summaries are re-proved on the current tree
 
     def replay_battery(key, why, extra=()):
-        path = ck.save_replay({'property': ck.pid, 'cases': list(extra) + [{'kind': 'el-battery', 'op': 'group', 'n': ck.seed}]})
+        path = ck.save_replay({'property': ck.pid, 'cases': list(extra) + fold_boundary_scalings() + [{'kind': 'el-battery', 'op': 'group', 'n': ck.seed}]})
         ok, out = core.go_test(path)
         if not ok and 'MISMATCH' in out:
             ck.violation(key, '%s: %s' % (why, [l.strip() for l in out.splitlines() if 'MISMATCH' in l][:1]), path)
